@@ -318,6 +318,58 @@ func c19(x *Ctx) {
 		}
 	}
 	c.Min(r1, 2)
+	// every event of an OTLP request is handed to processEvent: the per-event loops are only left when the events are
+	// exhausted (an error for one event – one worker's queue is full – says nothing about the others' routes)
+	const r1b = "C19.every-event-routed"
+	for _, name := range []string{"processOTLPRequest", "processOTLPRequestBatchMsgp"} {
+		f := x.P.Func("route", "Router", name)
+		if f == nil || f.Blocks == nil {
+			continue
+		}
+		eng.Instrs(f, func(in ssa.Instruction) {
+			if _, ok := eng.IsCall(in, "(*route.Router).processEvent"); !ok {
+				return
+			}
+			c.Examined++
+			bad := false
+			// all enclosing loops
+			for _, h := range f.Blocks {
+				if !inNaturalLoop(in.Block(), h) || h == in.Block() && len(h.Preds) < 2 {
+					continue
+				}
+				isHeader := false
+				for _, p := range h.Preds {
+					if p == h || h.Dominates(p) {
+						isHeader = true
+					}
+				}
+				if !isHeader {
+					continue
+				}
+				for _, b := range f.Blocks {
+					if b == h || !inNaturalLoop(b, h) {
+						continue
+					}
+					for _, sc := range b.Succs {
+						if !inNaturalLoop(sc, h) {
+							bad = true
+						}
+					}
+					if len(b.Succs) == 0 {
+						if _, isRet := b.Instrs[len(b.Instrs)-1].(*ssa.Return); isRet {
+							// a return inside the loop is allowed only before any event was processed: handled by C23
+							if eng.MayPrecede(in, b.Instrs[len(b.Instrs)-1]) && b != in.Block() {
+								bad = true
+							}
+						}
+					}
+				}
+			}
+			c.Decide(!bad, r1b, name, x.Pos(in), "the loops around processEvent run until the events are exhausted",
+				"a loop over the events of an OTLP request can be left early (break / return after one event's error): the remaining events – log records, spans owned by a peer, spans for other workers – take no route at all while the client is told the request succeeded")
+		})
+	}
+	c.Min(r1b, 2)
 	// no trace ID ⇒ upstream exactly once
 	const r2 = "C19.non-trace-upstream"
 	as := &eng.Assume{Bool: func(v ssa.Value) eng.Tri {
